@@ -176,3 +176,23 @@ Definition mode_of (n : N) : mode := if n =? 0 then ModeA else if n =? 1 then Mo
 Definition check_c11_order (m0 m s : N) (impl_ms impl_sm : N) : bool :=
   (t_subset (set_subset s (set_mode (mode_of m) (tok_create (mode_of m0)))) =? impl_ms)
   && (t_subset (set_mode (mode_of m) (set_subset s (tok_create (mode_of m0)))) =? impl_sm).
+
+(* sequences of operations on long-lived tokenizers whose results are collected into shared MorphemeLists
+   (MorphemeList::collect_results -> StatefulTokenizer::swap_result copies the tokenizer's subset INTO the list and
+   leaves the tokenizer's configuration alone).  observed = the subset the list reports right after the collection. *)
+Inductive tokop := OpMode (t m : N) | OpSubset (t s : N) | OpCollect (t observed : N).
+Fixpoint upd_tok (t : nat) (f : tokcfg -> tokcfg) (ts : list tokcfg) : list tokcfg :=
+  match ts, t with
+  | [], _ => []
+  | x :: r, O => f x :: r
+  | x :: r, S k => x :: upd_tok k f r
+  end.
+Fixpoint run_ops (ts : list tokcfg) (ops : list tokop) : bool :=
+  match ops with
+  | [] => true
+  | OpMode t m :: r => run_ops (upd_tok (N.to_nat t) (set_mode (mode_of m)) ts) r
+  | OpSubset t s :: r => run_ops (upd_tok (N.to_nat t) (set_subset s) ts) r
+  | OpCollect t obs :: r => (t_subset (nth (N.to_nat t) ts (tok_create ModeC)) =? obs) && run_ops ts r
+  end.
+Definition check_c11_ops (m0s : list N) (ops : list tokop) : bool :=
+  run_ops (map (fun m => tok_create (mode_of m)) m0s) ops.
